@@ -37,6 +37,7 @@ def run(ck):
         ck.ob("C08-O6", sitestr(f_, n_), ok_, "%s: %s" % (describe(n_)[:50], why_) if ok_ else
               "%s removes a file outside compressFile()/retention (%s): an uncompressed rotated file can disappear although its compressed copy is not known to be complete" %
               (strip_tmpl(f_.name).split("::")[-1], why_), key="remove|%s|%s" % (strip_tmpl(f_.name).split("::")[-1], "ok" if ok_ else why_))
+    single_deflate_stream(ck, S, "C08-O2")
     ck.rule("C08-O5", "ordering: rewind between the CRC pass and readAll; every write precedes close of the output; the original is removed only after that close; early returns precede any write or remove")
     fn = S.m["compressFile"]
     g = S.g(fn)
@@ -251,6 +252,21 @@ def run(ck):
     ck.rule("C08-O7", "a size of the active file read before a rotation is not used after it (the daily check may rotate before the size check runs)")
     from rules.rfs import stale_size
     stale_size(ck, S, "C08-O7")
+
+
+def single_deflate_stream(ck, S, RID="C08-O2"):
+    """a gzip member holds ONE deflate stream: the compressor is run once over the whole input.  qCompress() per block, with the pieces written one after the
+    other, gives several complete streams (each ends with a final block) - every gzip reader stops after the first one, and the length / CRC in the trailer
+    no longer describe what it has read"""
+    fn = S.m["compressFile"]
+    calls = [n for n in fn.calls() if strip_tmpl(n.get("callee") or "").split("::")[-1] in ("qCompress", "compress", "compress2", "deflate")]
+    if not calls:
+        ck.ob(RID, sitestr(fn), None, "compressFile(): no compressor call found", key="compressFile|one-stream")
+        return
+    looped = [n for n in calls if enclosing_loops(fn, n) and strip_tmpl(n.get("callee") or "").split("::")[-1] != "deflate"]
+    ck.ob(RID, sitestr(fn, (looped or calls)[0]), not looped, "the compressor runs once over the whole input (one deflate stream per gzip member)" if not looped else
+          "%s runs once per block inside a loop and the pieces are written one after the other: each piece is a complete deflate stream that ends with a final block, so a gzip reader "
+          "stops after the first block (1 MiB of a larger log) and then fails the length / CRC check - the rest of the rotated records is unreadable" % describe(looped[0])[:30], key="compressFile|one-stream")
 
 
 def crc32(ck, S, RID="C08-O4"):
